@@ -89,6 +89,40 @@ Definition chk_batch (c : batch_case) : bool :=
   let '(size, n, e, its, obs) := c in
   list_eqb ceqb (bo_batch Cf Z Z.eqb msf size n e (map (fun it => (fst it, tbl_opt (snd it))) its)) obs.
 
+(* get_batch_configs after a history: points, num_init_random, size, events (EGetOnly = suggested, trial not
+   started), batch size, draws of the batch call, per-iteration oracles, observed batch *)
+Inductive mbe2 := E2 (e : mbe) | EGetOnly (ds : list (draw Cf)) (cands : list Cf) (tbl : list (Cf * Cf)).
+Fixpoint mb_replay (s : mb_state Cf Z) (es : list mbe2) : option (mb_state Cf Z) :=
+  match es with
+  | [] => Some s
+  | E2 (ESug t ds cands tbl) :: r =>
+      match mb_get_config Cf Z Z.eqb msf s ds cands (tbl_opt tbl) with
+      | Ok (s', Some c, _) => match mb_register_pending Cf Z s' t c with Ok s'' => mb_replay s'' r | Err _ => None end
+      | Ok (s', None, _) => mb_replay s' r
+      | Err _ => None
+      end
+  | E2 (EUpd t c) :: r => mb_replay (mb_update Cf Z s t c) r
+  | E2 (EFail t) :: r => mb_replay (mb_evaluation_failed Cf Z s t) r
+  | E2 (ENonFinite t) :: r => mb_replay (mb_update_nonfinite Cf Z s t) r
+  | EGetOnly ds cands tbl :: r =>
+      match mb_get_config Cf Z Z.eqb msf s ds cands (tbl_opt tbl) with
+      | Ok (s', _, _) => mb_replay s' r
+      | Err _ => None
+      end
+  end.
+Definition mbatch_case := (list Cf * nat * option nat * list mbe2 * nat * list (draw Cf) *
+                           list (list Cf * list (Cf * Cf)) * list Cf)%type.
+Definition chk_mbatch (c : mbatch_case) : bool :=
+  let '(pts, ninit, size, evs, n, ds, its, obs) := c in
+  match mb_replay (mb_ctor Cf Z (dedup Cf ceqb [] pts) ninit false size 100 50) evs with
+  | None => false
+  | Some s =>
+      match mb_get_batch Cf Z Z.eqb msf s n ds (map (fun it => (fst it, tbl_opt (snd it))) its) with
+      | Ok (_, b) => list_eqb ceqb b obs
+      | Err _ => false
+      end
+  end.
+
 (* _postprocess_config: keys = Z, values = Z ids, domain = Z id, cast = table *)
 Definition pp_case := (list (Z * entry Z Z) * list (Z * Z) * list (Z * Z * Z) * list (Z * (bool * Z)))%type.
 Fixpoint cast_tbl (t : list (Z * Z * Z)) (d v : Z) : Z :=
@@ -1129,9 +1163,28 @@ def gen_batch_mixed_case(rng):
 
 def run_batch_mixed_case(ctx, case):
     from syne_tune.optimizer.schedulers import FIFOScheduler, HyperbandScheduler
+    from syne_tune.optimizer.schedulers.searchers.utils.hp_ranges import HyperparameterRanges
+    from syne_tune.optimizer.schedulers.searchers.bayesopt.tuning_algorithms.bo_algorithm_components import (
+        LBFGSOptimizeAcquisition)
+    from syne_tune.config_space import config_space_size
     quiet()
     space = build_space(case["spec"])
-    so = dict(FAST_GP, num_init_random=case["num_init_random"])
+    enc = Enc(space)
+    rec = Recorder()
+    pairs, marks = [], []
+
+    class RecordingOptimizer(LBFGSOptimizeAcquisition):
+        def optimize(self, candidate, predictor=None):
+            out = super().optimize(candidate, predictor=predictor)
+            pairs.append((dict(candidate), dict(out)))
+            return out
+    orig_bulk = HyperparameterRanges.random_configs
+
+    def bulk(hp_self, random_state, num_configs):
+        marks.append(len(pairs))
+        return orig_bulk(hp_self, random_state, num_configs)
+    so = dict(FAST_GP, num_init_random=case["num_init_random"], local_minimizer_class=RecordingOptimizer)
+    evs = []
     with contextlib.redirect_stdout(io.StringIO()):
         if case["mf"]:
             sch = HyperbandScheduler(space, searcher="bayesopt", type="stopping", resource_attr="epoch", max_t=9, grace_period=1,
@@ -1143,12 +1196,25 @@ def run_batch_mixed_case(ctx, case):
         s = sch.searcher                      # public property; the searcher API is driven directly
         s.configure_scheduler(sch)
         earlier = []
+        patches = contextlib.ExitStack()
+        patches.enter_context(rec.patch())
+        patches.enter_context(mock.patch.object(HyperparameterRanges, "random_configs", bulk))
         for t in range(case["n_before"]):
+            n0, p0 = len(rec.log), len(pairs)
             c = s.get_config(trial_id=str(t)) if not case["mf"] else s.get_config(trial_id=str(t), milestone=1)
+            prs = pairs[p0:]
+            sug = "%s %s %s" % (draws_term(enc, [d for d in rec.log[n0:] if d[0] == "cfg"]), lst([enc(o) for o, _ in prs]),
+                                lst(["(%s, %s)" % (enc(o), enc(q)) for o, q in prs]))
             if c is None:
+                evs.append("(EGetOnly %s)" % sug)
                 break
             earlier.append(c)
             fate = case["fates"][t]
+            evs.append("(EGetOnly %s)" % sug if fate == "none" else "(E2 (ESug %s %s))" % (zlit(t), sug))
+            if fate == "obs":
+                evs.append("(E2 (EUpd %s %s))" % (zlit(t), enc(c)))
+            elif fate == "failed":
+                evs.append("(E2 (EFail %s))" % zlit(t))
             if fate == "none":
                 continue                       # suggested, trial not started yet (batch suggestions of a scheduler)
             s.register_pending(str(t), config=c, milestone=1) if case["mf"] else s.register_pending(str(t), config=c)
@@ -1159,7 +1225,22 @@ def run_batch_mixed_case(ctx, case):
                 s.evaluation_failed(str(t))
         registered = [hp_tuple(space, c) for c, f in zip(earlier, case["fates"]) if f != "none"]
         kwargs = dict(milestone=1) if case["mf"] else {}
+        n0, p0 = len(rec.log), len(pairs)
+        del marks[:]
         batch = s.get_batch_configs(batch_size=case["batch_size"], **kwargs)
+        patches.close()
+    term = None
+    if not case["mf"]:
+        bp = pairs[p0:]
+        cuts = sorted(set([m - p0 for m in marks if m >= p0] + [len(bp)]))
+        segs = [bp[a:b] for a, b in zip([0] + cuts, cuts) if b > a]
+        its = lst(["(%s, %s)" % (lst([enc(o) for o, _ in seg]), lst(["(%s, %s)" % (enc(o), enc(q)) for o, q in seg])) for seg in segs])
+        size = config_space_size(space)
+        imputed = [expected_initial(space, [p])[0] for p in case["pts"]]
+        term = "(%s, %s, %s, %s, %s, %s, %s, %s)" % (
+            lst([enc(c) for c in imputed]), natlit(case["num_init_random"]), optlit(size, natlit), lst(evs),
+            natlit(case["batch_size"]), draws_term(enc, [d for d in rec.log[n0:] if d[0] == "cfg"]), its,
+            lst([enc(c) for c in batch]))
     viol = None
     seen = list(registered)     # observed / pending / failed configurations
     for c in batch:
@@ -1173,7 +1254,7 @@ def run_batch_mixed_case(ctx, case):
         seen.append(t)
     if viol is None and len(batch) > case["batch_size"]:
         viol = ("batch_larger_than_requested", "%d > %d" % (len(batch), case["batch_size"]))
-    return viol, len(batch), len(earlier)
+    return viol, len(batch), len(earlier), term
 
 
 # --------------------------------------------------------------------------
@@ -1431,6 +1512,7 @@ def run(ctx, replay=None):
         cases += [dict(kind="pp", seed=rng.randrange(10 ** 9)) for _ in range(ctx.n(150, 1500))]
     rs_terms, rs_meta, gs_terms, gs_meta, prod_terms, prod_meta, mb_terms, mb_meta, pp_terms, pp_meta = ([] for _ in range(10))
     bt_terms, bt_meta = [], []
+    mbt_terms, mbt_meta = [], []
     for case in cases:
         k = case["kind"]
         for pt in (case.get("pts") or []):
@@ -1489,7 +1571,10 @@ def run(ctx, replay=None):
                 ctx.violation("property", "%s (shared restrict_configurations): %s — %s" % (case["via"], sig["event"], text),
                               case=case, signature=sig)
         elif k == "batch_mixed":
-            viol, nb, ne = run_batch_mixed_case(ctx, case)
+            viol, nb, ne, term = run_batch_mixed_case(ctx, case)
+            if term is not None:
+                mbt_terms.append(term)
+                mbt_meta.append(case)
             ctx.count(case, nontrivial=nb >= 2)
             ctx.h("batch_mixed", "%s pts=%d before=%d batch=%d" % ("mf" if case["mf"] else "fifo", len(case["pts"]), min(ne, 3), min(nb, 3)))
             if viol:
@@ -1514,13 +1599,13 @@ def run(ctx, replay=None):
     ctx.h("resume_suggestions_compared_with_model", len(rz_terms) // 10 * 10)
     for tag, fn, terms, meta, shard in (("resume", "chk_resume", rz_terms, rz_meta, 60), ("rs", "chk_rs", rs_terms, rs_meta, 40), ("gs", "chk_gs", gs_terms, gs_meta, 40),
                                         ("prod", "chk_prod", prod_terms, prod_meta, 60),
-                                        ("mb", "chk_mb", mb_terms, mb_meta, 10), ("batch", "chk_batch", bt_terms, bt_meta, 20),
+                                        ("mb", "chk_mb", mb_terms, mb_meta, 10), ("batch", "chk_batch", bt_terms, bt_meta, 20), ("mbatch", "chk_mbatch", mbt_terms, mbt_meta, 12),
                                         ("pp", "chk_pp", pp_terms, pp_meta, 80)):
         if not terms:
             continue
         if meta:
             ctx.sample(dict(correspondence=fn, case=meta[0]))
-        ty = dict(rs="rs_case", gs="gs_case", prod="(list (list Z) * list (list Z))%type", mb="mb_case", pp="pp_case", batch="batch_case", resume="resume_case")[tag]
+        ty = dict(rs="rs_case", gs="gs_case", prod="(list (list Z) * list (list Z))%type", mb="mb_case", pp="pp_case", batch="batch_case", resume="resume_case", mbatch="mbatch_case")[tag]
         terms = ["(%s : %s)" % (t, ty) for t in terms]
         for i in ctx.coq_bad_cases(tag, IMPORTS, PRELUDE, fn, terms, shard=shard):
             ctx.violation("correspondence", "model (%s) and implementation differ" % fn, case=meta[i],
